@@ -31,6 +31,7 @@ type c06Case struct {
 	NumConn    int   `json:",omitempty"` // connections of the session, handshaking at the same time (0 = 1)
 	Managed    bool  `json:",omitempty"` // the user is in the user database (authorisation takes a while) instead of the bypass list
 	Others     int   `json:",omitempty"` // other clients (own UIDs, own session ids) whose handshakes run at the same time
+	SegTail    int   `json:",omitempty"` // >0: everything a client sends reaches the server in two segments, the second SegTail bytes long
 }
 
 var c06EncByte = map[string]byte{"plain": 0, "aes-256-gcm": 1, "aes-gcm": 1, "chacha20-poly1305": 2, "aes-128-gcm": 3}
@@ -74,6 +75,33 @@ func c06Inner(c c06Case) (vk.Result, error) {
 	srv := newVSrv(opts)
 	defer srv.stop()
 	srv.serve()
+	if c.SegTail > 0 {
+		// TCP segmentation of what reaches the server (directly, or from the CDN): each write arrives as "all but the
+		// last SegTail bytes", then, a millisecond later, the rest
+		srv.net.OnLink = func(l *vk.Link) {
+			l.SetAuto(vk.AtoB, false)
+			go func() {
+				for {
+					h := l.HeadChunk(vk.AtoB)
+					if len(h) == 0 {
+						if l.WriterClosed(vk.AtoB) || l.A.IsClosed() || l.B.IsClosed() {
+							return
+						}
+						time.Sleep(time.Millisecond)
+						continue
+					}
+					k := c.SegTail
+					if k >= len(h) {
+						l.DeliverChunk(vk.AtoB)
+						continue
+					}
+					l.DeliverBytes(vk.AtoB, len(h)-k)
+					time.Sleep(time.Millisecond)
+					l.DeliverBytes(vk.AtoB, k)
+				}
+			}()
+		}
+	}
 	offset := time.Duration(c.OffsetMs) * time.Millisecond
 	clientNow := func() time.Time { return time.Now().Add(offset) }
 	_, remote, auth, err := vMustProcess(cfg, srv.pub, clientNow)
@@ -287,6 +315,9 @@ func c06Inner(c c06Case) (vk.Result, error) {
 	if c.Others > 0 {
 		res.Labels = append(res.Labels, "other-clients-at-the-same-time")
 	}
+	if c.SegTail > 0 {
+		res.Labels = append(res.Labels, "first-packet-in-two-segments")
+	}
 	if len(firsts) > 0 && len(firsts[0]) > 1500 {
 		res.Labels = append(res.Labels, "first-packet>1500")
 	}
@@ -303,11 +334,12 @@ func c06Gen(rt *rapid.T) c06Case {
 	c.UDP = rapid.Bool().Draw(rt, "udp")
 	c.Browser = rapid.SampledFrom([]string{"chrome", "firefox", "safari"}).Draw(rt, "browser")
 	c.Transport = rapid.SampledFrom([]string{"direct", "direct", "direct", "cdn"}).Draw(rt, "transport")
-	c.ServerName = rapid.SampledFrom([]string{"www.bing.com", "random", "a.example.org", "x.co", "very-long-name-0123456789.sub.domain.example.com"}).Draw(rt, "sn")
+	c.ServerName = rapid.SampledFrom([]string{"www.bing.com", "random", "a.example.org", "x.co", "very-long-name-0123456789.sub.domain.example.com", "Random", "RANDOM"}).Draw(rt, "sn")
 	c.OffsetMs = rapid.OneOf(rapid.Int64Range(-178000, 178000), rapid.SampledFrom([]int64{0, -178999, 178999, 178000, -178000, 500, -500})).Draw(rt, "offset")
 	c.NumConn = rapid.SampledFrom([]int{1, 1, 2, 3, 6}).Draw(rt, "numconn")
 	c.Managed = rapid.Bool().Draw(rt, "managed")
 	c.Others = rapid.SampledFrom([]int{0, 0, 1, 3, 6}).Draw(rt, "others")
+	c.SegTail = rapid.SampledFrom([]int{0, 0, 1, 2, 3, 4, 7}).Draw(rt, "segtail")
 	return c
 }
 
